@@ -98,6 +98,10 @@ pub struct RunCfg {
     /// a throw-away value is submitted first (documented: the later submission overwrites it)
     #[serde(default)]
     pub shuffle_submissions: bool,
+    /// how the game packs its checksum into the u128: 0 = the 64-bit state hash in the low half,
+    /// 1 = the state hash in the HIGH half and only the frame number in the low half, 2 = both halves
+    #[serde(default)]
+    pub checksum_layout: u8,
 }
 
 #[derive(Serialize, Deserialize, Clone, Copy, Debug, PartialEq, Eq)]
